@@ -21,6 +21,7 @@ def run(ctx: Ctx, chk) -> None:
     chk.assume("A1", "A2")
     chk.run_rule(atom1, ctx)
     chk.run_rule(iter1, ctx)
+    chk.run_rule(mut1, ctx)
 
 
 def _def_nodes(g: CFG, names: set[str]):
@@ -282,3 +283,22 @@ def iter1(ctx: Ctx, chk) -> None:
             else:
                 raise AnalysisError(f"ITER-1: flush in {f.fq} iterates `{norm(fl.snapshot)}` whose origin is not recognised")
     chk.floor(rule, "buffer iterations", n, 1)
+
+
+def mut1(ctx: Ctx, chk) -> None:
+    rule = "MUT-1"
+    chk.rule(rule, "a parked entry is never modified in place: the flush recognises 'replaced while I was writing' by object identity, which only works if every send that changes the value stores a different object under the key")
+    n = 0
+    for attr in sb.BUFFERS:
+        for f in ctx.prog.all_functions():
+            ups = sb.inplace_updates(ctx, f, attr)
+            names = sb.entry_names(ctx, f, attr)
+            if names or ups:
+                n += 1
+                chk.instance(rule)
+                if ups:
+                    st, who, fld = ups[0]
+                    chk.refute(rule, fkey(f, st), f"`{norm(st)[:70]}` changes field {fld} of an entry that is parked in {attr}: a flush that is suspended in the write of that entry still sees the same object afterwards, removes it, and the new value is never written (lost update)", ctx.loc(f, st))
+                else:
+                    chk.ok(rule, f"{f.fq}::{attr}", f"entries bound as {sorted(names)} are only read", f.where, sample=n <= 2)
+    chk.floor(rule, "functions binding buffer entries", n, 1)
